@@ -42,13 +42,14 @@ def run_auto(case):
 
     cfg = case["cfg"]
     cfg.setdefault("mode", "ansi")
+    cfg.setdefault("next", [])
+    cfg.setdefault("prev", [])
     b = Baton()
     old = (pim.threading, pim.time)
     old_cols = os.environ.get("COLUMNS")
     os.environ["COLUMNS"] = str(cfg["w"])
     pim.threading, pim.time = b.threading, b.time
-    trace = [dict(_event("", "new"), cfg=cfg)]
-    left = {}
+    trace = []
     try:
         if cfg["mode"] == "plain":  # a not decorated output
             from clikit.formatter import PlainFormatter
@@ -58,67 +59,19 @@ def run_auto(case):
             out = Output(b.stream(ansi=True), AnsiFormatter(forced=True))
         if cfg["mode"] == "quiet":
             out.set_quiet(True)
-        ind = pim.ProgressIndicator(out, interval=cfg["interval"])
-        start, end = "".join(cfg["start"]), "".join(cfg["end"])
-
-        def main():
+        ind = pim.ProgressIndicator(out, interval=cfg["interval"])  # ONE indicator object for every run of the case
+        sched = list(case["schedule"])
+        runs = [cfg] + [dict(c, next=[]) for c in cfg["next"]]
+        for k, c in enumerate(runs):
+            trace.append(dict(_event("", "new"), cfg=c))
             try:
-                with ind.auto(start, end) as p:
-                    for it in cfg["body"]:
-                        if it["k"] == "set":
-                            p.set_message("".join(it["m"]))
-                        elif it["k"] == "work":
-                            b.work()
-                        elif it["k"] == "interrupt":
-                            raise KeyboardInterrupt()
-                        else:
-                            raise BodyError("the body fails")
-            finally:
-                left["alive"] = [n for n in b.alive() if n != "M"]
-
-        try:
-            b.spawn("M", main)
-            skipped = 0
-            for el in case["schedule"]:
-                if b.done("M"):
-                    break
-                if isinstance(el, list):
-                    b.tick(el[1])
-                    trace.append(_event("T", "tick", dt=el[1]))
-                elif b.is_enabled(el):
-                    e = b.step(el)
-                    trace.append(_event(e["th"], e["op"], e["text"]))
-                else:
-                    skipped += 1  # the code is not where the schedule's author expected it: go on with the rest
-            # fair completion: round-robin over the enabled threads, the clock advances when nobody can move
-            n = 0
-            while not b.done("M") and n < BUDGET:
-                moved = False
-                for th in ("M", "S"):
-                    if not b.done("M") and b.is_enabled(th):
-                        e = b.step(th)
-                        trace.append(_event(e["th"], e["op"], e["text"]))
-                        moved = True
-                        n += 1
-                if not moved:
-                    if not b.alive():
-                        break
-                    b.tick(100)
-                    trace.append(_event("T", "tick", dt=100))
-                    n += 1
-        except BatonStuck as e:
-            raise T.MachineryError("baton scheduler: %s" % e)
-        exc = b.exception("M")
-        if not b.done("M"):
-            outcome = "stuck"
-        elif exc is None:
-            outcome = "normal"
-        else:
-            outcome = "raised"
-        sexc = b.exception("S") if "S" in b.threads else None
-        trace.append(dict(_event("", "end"), outcome=outcome, exc=type(exc).__name__ if exc is not None else "",
-                          salive=bool(left.get("alive", [n for n in b.alive() if n != "M"])),
-                          sexc=type(sexc).__name__ if sexc is not None else "", skipped=skipped))
+                sched, end_event = _one_run(b, ind, c, sched, trace)
+            except BatonStuck as e:
+                raise T.MachineryError("baton scheduler: %s" % e)
+            trace.append(end_event)
+            if end_event["outcome"] != "normal" or end_event["salive"]:
+                break  # a second auto() follows a normal exit only (after a failure the indicator refuses to start again)
+            b.retire()
     finally:
         b.shutdown()
         pim.threading, pim.time = old
@@ -133,22 +86,89 @@ def run_auto(case):
     return trace
 
 
+def _one_run(b, ind, cfg, sched, trace):
+    """one `with ind.auto(start, end): body` under the schedule; -> (what is left of the schedule, the end event)"""
+    start, end = "".join(cfg["start"]), "".join(cfg["end"])
+    left = {}
+
+    def main():
+        try:
+            with ind.auto(start, end) as p:
+                for it in cfg["body"]:
+                    if it["k"] == "set":
+                        p.set_message("".join(it["m"]))
+                    elif it["k"] == "work":
+                        b.work()
+                    elif it["k"] == "interrupt":
+                        raise KeyboardInterrupt()
+                    else:
+                        raise BodyError("the body fails")
+        finally:
+            left["alive"] = [n for n in b.alive() if n != "M"]
+
+    b.spawn("M", main)
+    skipped = 0
+    pos = 0
+    while pos < len(sched) and not b.done("M"):
+        el = sched[pos]
+        pos += 1
+        if isinstance(el, list):
+            b.tick(el[1])
+            trace.append(_event("T", "tick", dt=el[1]))
+        elif b.is_enabled(el):
+            e = b.step(el)
+            trace.append(_event(e["th"], e["op"], e["text"]))
+        else:
+            skipped += 1  # the code is not where the schedule's author expected it: go on with the rest
+    # fair completion: round-robin over the enabled threads, the clock advances when nobody can move
+    n = 0
+    while not b.done("M") and n < BUDGET:
+        moved = False
+        for th in ("M", "S"):
+            if not b.done("M") and b.is_enabled(th):
+                e = b.step(th)
+                trace.append(_event(e["th"], e["op"], e["text"]))
+                moved = True
+                n += 1
+        if not moved:
+            if not b.alive():
+                break
+            b.tick(100)
+            trace.append(_event("T", "tick", dt=100))
+            n += 1
+    exc = b.exception("M")
+    if not b.done("M"):
+        outcome = "stuck"
+    elif exc is None:
+        outcome = "normal"
+    else:
+        outcome = "raised"
+    sexc = b.exception("S") if "S" in b.threads else None
+    return sched[pos:], dict(_event("", "end"), outcome=outcome, exc=type(exc).__name__ if exc is not None else "",
+                             salive=bool(left.get("alive", [n for n in b.alive() if n != "M"])),
+                             sexc=type(sexc).__name__ if sexc is not None else "", skipped=skipped)
+
+
 def case_of_behaviour(beh):
-    sched = [["T", s["dt"]] if s["th"] == "T" else s["th"] for s in beh["steps"]]
+    sched = [["T", s["dt"]] if s["th"] == "T" else s["th"] for s in beh["steps"] if s["th"]]
     return {"cfg": beh["cfg"], "schedule": sched}
 
 
 def same_auto(beh, trace):
-    steps = trace[1:-1]
-    endev = trace[-1]
-    if len(steps) != len(beh["steps"]) or endev["skipped"] or endev["salive"] or endev["sexc"]:
+    steps = [e for e in trace if e["th"]]
+    ends = [e for e in trace if e["op"] == "end"]
+    want = [s for s in beh["steps"] if s["th"]]
+    outcomes = [s["at"] for s in beh["steps"] if not s["th"]] + [beh["outcome"]]   # a restart step carries the outcome before it
+    if len(steps) != len(want) or len(ends) != len(outcomes):
         return False
-    for s, o in zip(beh["steps"], steps):
+    if any(e["skipped"] or e["salive"] or e["sexc"] for e in ends) or [e["outcome"] for e in ends] != outcomes:
+        return False
+    for s, o in zip(want, steps):
         if s["th"] != o["th"] or s["op"] != o["op"] or s["dt"] != o["dt"]:
             return False
         if [dict(k=x["k"], n=x["n"], s=list(x["s"])) for x in s["ops"]] != o["ops"]:
             return False
-    return endev["outcome"] == beh["outcome"]
+    return True
 
 
 def nontrivial_auto(trace):
@@ -177,7 +197,7 @@ def random_case(rng):
             body.append({"k": rng.choice(["raise", "raise", "interrupt"]), "m": []})
             break
     cfg = {"mode": rng.choice(["ansi", "ansi", "ansi", "plain", "quiet"]), "w": 40, "interval": rng.choice([100, 100, 100, 50, 200, 0]),
-           "start": list("AAAA"), "end": list("END"), "body": body}
+           "start": list("AAAA"), "end": list("END"), "body": body, "next": [], "prev": []}
     sched = []
     # a random walk over thread ids and clock advances; elements that are not enabled when their turn comes are
     # skipped by run_auto, so any sequence is a schedule.  Bursts make long runs of one thread likely as well.
@@ -188,6 +208,12 @@ def random_case(rng):
             sched.append(["T", rng.choice([100, 100, 50, 30, 250])])
         else:
             sched += [th] * rng.choice([1, 1, 1, 2, 3, 5])
+    if rng.random() < 0.3 and not any(it["k"] in ("raise", "interrupt") for it in body):  # the same object used for a second auto()
+        second = dict(cfg, start=list(cfg["end"]) if rng.random() < 0.6 else list("AAAA"),
+                      end=list(cfg["end"]) if rng.random() < 0.6 else list("FIN"),
+                      body=[{"k": "set", "m": list(rng.choice(MSGS))}] if rng.random() < 0.3 else [],
+                      prev=[list(x) for x in MSGS] + [list("AAAA"), list("END"), list("FIN")])
+        cfg["next"] = [second]
     return {"cfg": cfg, "schedule": sched}
 
 
@@ -304,14 +330,19 @@ def random_manual_case(rng):
         elif x < 0.9:
             ops.append({"op": "set", "dt": dt, "m": list(rng.choice(MSGS))})
         else:
-            ops.append({"op": "finish", "dt": dt, "m": list(rng.choice(MSGS)), "reset": rng.random() < 0.5})
+            # often with the message of the last start(): the next start() of the same object then repeats a frame
+            last = [o["m"] for o in ops if o["op"] == "start"]
+            m = last[-1] if last and rng.random() < 0.5 else list(rng.choice(MSGS))
+            ops.append({"op": "finish", "dt": dt, "m": list(m), "reset": rng.random() < 0.5})
+            if rng.random() < 0.6:
+                ops.append({"op": "start", "dt": rng.choice([0, 10, 100]), "m": list(m)})
     if rng.random() < 0.8:
         ops.insert(0, {"op": "start", "dt": 0, "m": list("AAAA")})
     return {"cfg": cfg, "ops": ops, "default_interval": rng.random() < 0.5}
 
 
 # ------------------------------------------------------------------------------------------------ the check
-M_LABELS = {"lock", "erase", "frame", "tstart", "work", "x_lf", "x_set", "x_join", "f_set", "f_join", "f_lf"}
+M_LABELS = {"lock", "erase", "frame", "tstart", "work", "x_lf", "x_set", "x_setret", "x_join", "f_set", "f_setret", "f_join", "f_lf"}
 S_LABELS = {"isset", "lock", "erase", "frame", "sleep"}
 
 
@@ -393,7 +424,9 @@ def run(ctx):
     state = {"seen": set(), "not_reproduced": 0, "sample": None}
     n_all = 0
     # quick: every schedule of the small bodies with <= 4 pre-emptions; thorough: all their interleavings + larger bodies
-    for cfg in (["MC_Spinner_sched_quick.cfg"] if quick else ["MC_Spinner_sched_all.cfg", "MC_Spinner_sched_thorough.cfg"]):
+    ctx.model(SPEC, "MC_Spinner", "MC_Spinner_bfs_twice.cfg", name="two runs on one indicator object (safety + liveness)", workers=8)
+    for cfg in (["MC_Spinner_sched_quick.cfg", "MC_Spinner_sched_twice.cfg"] if quick
+                else ["MC_Spinner_sched_all.cfg", "MC_Spinner_sched_twice.cfg", "MC_Spinner_sched_thorough.cfg"]):
         r = ctx.model(SPEC, "MC_Spinner", cfg, name="schedules " + cfg, workers=8)
         n_all += _replay_auto(ctx, r, traces, cases, labels, state)
     r = ctx.model(SPEC, "MC_Spinner", "MC_Spinner_sim.cfg", name="simulated schedules", simulate="num=%d" % (150 if quick else 8000),
